@@ -137,7 +137,7 @@ func c15Run(c lib.Case, env *lib.Env) lib.Result {
 		sw := &yieldWriter{rng: lib.NewRng(lib.Mix(cs, 2))}
 		var sp *lib.ShortReadPool
 		_, err := lib.DiffDirs(oldDir, newDir, s.Comp, func(p lake.Pool) lake.Pool {
-			sp = &lib.ShortReadPool{Inner: p, Rng: lib.NewRng(lib.Mix(cs, 3)), Yield: run > 0}
+			sp = &lib.ShortReadPool{Inner: p, Rng: lib.NewRng(lib.Mix(cs, 3)), Yield: run > 0, EOFWithData: run%3 == 2}
 			return sp
 		}, pw, sw)
 		if err != nil {
